@@ -60,7 +60,7 @@ THEOREMS = ["Qclib.C08_assembly", "Qclib.C08_partition_of_qubits", "Qclib.C08_pa
             "Qclib.C08_search_best_some", "Qclib.C08_zero_loss_only_exact_splits", "Qclib.C08_zero_loss_partial",
             "Qclib.C08_zero_loss", "Qclib.C08_saved_nonneg", "Qclib.C08_cnots_conditional",
             "Qclib.C08_true_loss_nested_partial", "Qclib.C08_greedy_candidates", "Qclib.C08_zero_loss_all",
-            "Qclib.C08_plan_nesting_n3", "Qclib.C08_rank1_loss", "Qclib.C08_true_loss_n3_partial"]
+            "Qclib.C08_plan_nesting_n3", "Qclib.C08_rank1_loss", "Qclib.C08_true_loss_n3_partial", "Qclib.C08_true_loss_n3_le", "Qclib.C08_lowrank_answer"]
 TRUSTED = [
     "np.linalg.svd via schmidt_decomposition/low_rank_approximation: fidelity losses 1 - sum(s_i^2) in [0,1]; at zero loss the vector is the "
     "one-term Schmidt composition of svd_u[:,0], svd_v[0,:] (hypothesis ExactSplits of C08_zero_loss; conclusion of C09_compose; validated by the "
@@ -70,7 +70,8 @@ TRUSTED = [
     "IEEE-754 doubles vs exact arithmetic: the model is run in both; decisions that differ are counted (rounding-borderline), not hidden",
 ]
 ASSUMPTIONS = ["exact arithmetic in the theorems; implementation compared to 1e-7 on amplitudes, 1e-12 on losses",
-               "generated vectors keep Schmidt coefficients outside (1e-12, 1e-3)",
+               "generated vectors keep Schmidt coefficients outside (1e-12, 1e-3), except 24 deliberately placed 'svcut' cases with one "
+               "coefficient a factor 3 below / above the 1e-7 rank cut (3.3e-8, 3e-7), compared to 3e-6 on amplitudes",
                "n >= 2 (a one-qubit input never reaches the search)"]
 RULE = ("tie: (vector, max_fidelity_loss, strategy, max_combination_size, use_low_rank) on which the real adaptive_approximation "
         "was executed with _reduce_entanglement / schmidt_decomposition / cnot_count recorded and the model replayed; oracle: the "
@@ -129,6 +130,8 @@ class Recorder:
         self.sentinel = 900000
         self.cur_lp = None
         self.anomalies = []
+        self.bcounts = set()
+        self.order_sensitive = set()
         self.orig = {}
 
     def vid(self, v):
@@ -157,6 +160,8 @@ class Recorder:
         def w_reduce(state_vector, register, partition, use_low_rank=False):
             R.cur_lp = None
             infos = o["_reduce_entanglement"](state_vector, register, partition, use_low_rank)
+            if use_low_rank:                    # `range(0, max_ebits + 1)`, max_ebits = log2(len(svd_s)) - 1 (baa.py:340-342)
+                R.bcounts.add(f"boundary:low-rank-candidates:{min(len(infos), 3)}(3=more)")
             v = R.vid(state_vector)
             lp = R.cur_lp if R.cur_lp is not None else [-1]
             key = (v, tuple(lp), bool(use_low_rank))
@@ -189,6 +194,16 @@ class Recorder:
 
         def w_create(parent, e_info):
             new = o["_create_node"](parent, e_info)
+            sc = int(new.total_saved_cnots)     # `new_node.total_saved_cnots > 0` (baa.py:252)
+            R.bcounts.add("boundary:total_saved_cnots:" + ("<0" if sc < 0 else "=0" if sc == 0 else "=1" if sc == 1 else ">1"))
+            if e_info.rank == 1 and max(e_info.register) >= 8:
+                # baa.py:387-389 sorts the remaining register; iterating the bare set would give another order here
+                rest = tuple(set(e_info.register).difference(e_info.partition))
+                if rest != tuple(sorted(rest)):
+                    R.order_sensitive.add(tuple(sorted(rest)))
+            if e_info.rank == 1:                # `len(partition) == 1` (baa.py:394,399)
+                R.bcounts.add(f"boundary:split-sizes:{min(len(e_info.partition), 3)}|"
+                              f"{min(len(e_info.register) - len(e_info.partition), 3)}(3=more)")
             d = R.info_of.get(id(e_info))
             if d is not None and e_info.rank != 1:
                 d["va"] = R.vid(new.vectors[-1])
@@ -287,10 +302,12 @@ def run_case(c):
     v = np.array([complex(a, b) for a, b in c["vec"]])
     opt = {"max_fidelity_loss": c["l"], "strategy": c["s"], "max_combination_size": c["c"], "use_low_rank": c["u"]}
     res = {"checks": [], "counts": [], "anomalies": [], "op": None, "impl": None}
+    tol = float(c.get("tol", TOL))
     rep = {"call": "BaaLowRankInitialize(vector, opt_params=opt).definition", "vector": c["vec"], "opt": opt,
-           "kind": c["kind"], "n": n, "tag": c["tag"], "do_cx": c.get("do_cx", False), "ref_form": c.get("ref_form", 0)}
+           "kind": c["kind"], "n": n, "tag": c["tag"], "do_cx": c.get("do_cx", False), "ref_form": c.get("ref_form", 0),
+           "straddle": bool(c.get("straddle", False))}
     form = c.get("form", "opt")
-    rep.update({k: c[k] for k in ("form", "iso", "uni", "qubits", "rsvd_seed") if k in c})
+    rep.update({k: c[k] for k in ("form", "iso", "uni", "qubits", "rsvd_seed", "tol") if k in c})
     static_qubits = None
     host = None
     if n >= 14:
@@ -355,18 +372,28 @@ def run_case(c):
     res["counts"].append(f"plan:{len(node.qubits)}-factors")
     if any(r > 1 for r in node.ranks):
         res["counts"].append("plan:has-lowrank-factor")
+    res["counts"] += sorted(R.bcounts)
+    if c.get("straddle"):
+        # a final factor of 2-4 qubits whose qubits, iterated as a CPython set, do NOT come out ascending: the plan is
+        # only right because _create_node sorts the remaining register
+        if any(tuple(q) in R.order_sensitive for q in node.qubits):
+            res["counts"].append("boundary:final-block-set-order-differs-from-sorted")
+        elif R.order_sensitive:
+            res["counts"].append("boundary:inner-register-set-order-differs-from-sorted")
+        else:
+            res["counts"].append("boundary:set-order-ascending-throughout(insensitive)")
     # ---- oracle ----
     l_eff = c["l"] if 0 <= c["l"] <= 1 else 0.0
     sv = np.asarray(Statevector(defn).data)
     plan = plan_tensor(n, node.vectors, node.qubits)
     err_plan = float(np.abs(sv - plan).max())
-    res["checks"].append((case_key("plan", c), err_plan <= TOL, f"max|Statevector - plan tensor| = {err_plan:.3e}; "
+    res["checks"].append((case_key("plan", c), err_plan <= tol, f"max|Statevector - plan tensor| = {err_plan:.3e}; "
                           f"qubits={node.qubits} ranks={node.ranks} partitions={node.partitions}", True, rep))
     # Node.state_vector() / Node.num_qubits(): the library's own reading of the plan
     try:
         nsv = np.asarray(node.state_vector(), dtype=complex).reshape(-1)
         err_nsv = float(np.abs(nsv - plan).max()) if nsv.shape == plan.shape else float("inf")
-        okn = err_nsv <= TOL and node.num_qubits() == n
+        okn = err_nsv <= tol and node.num_qubits() == n
         res["checks"].append((case_key("node-state-vector", c), okn,
                               f"max|node.state_vector() - plan tensor| = {err_nsv:.3e}; num_qubits()={node.num_qubits()} "
                               f"qubits={node.qubits}", True, rep))
@@ -398,8 +425,15 @@ def run_case(c):
                           f"plan qubits {node.qubits}", True, rep))
     if l_eff == 0.0:
         err0 = float(np.abs(sv - v).max())
-        res["checks"].append((case_key("exact0", c), err0 <= TOL, f"max|Statevector - input| = {err0:.3e} at zero loss; "
+        res["checks"].append((case_key("exact0", c), err0 <= tol, f"max|Statevector - input| = {err0:.3e} at zero loss; "
                               f"plan qubits={node.qubits} loss={node.total_fidelity_loss}", True, rep))
+    if c.get("straddle") and 0.0 < l_eff <= 1e-12:
+        # exactly separable input (every cut that is not a union of groups loses > 1e-3): a budget of 1e-12 admits only the
+        # exact splits, so the circuit must still prepare the input
+        err0 = float(np.abs(sv - v).max())
+        res["checks"].append((case_key("exact-separable", c), err0 <= tol, f"max|Statevector - input| = {err0:.3e} at budget "
+                              f"{l_eff!r} on an exactly separable state; plan qubits={node.qubits} loss={node.total_fidelity_loss}",
+                              True, rep))
     tl = float(node.total_fidelity_loss)
     res["checks"].append((case_key("budget", c), tl <= l_eff + 1e-12, f"plan loss {tl!r} > allowed {l_eff!r}", True, rep))
     prod = 1.0
@@ -630,6 +664,183 @@ def gen_entry_cases(ctx):
 
 
 # ---------------------------------------------------------------------------------------------
+# boundary-value cases (inputs placed AT and next to the thresholds of the anchored code)
+# ---------------------------------------------------------------------------------------------
+
+def _pairs(v):
+    return [[float(z.real), float(z.imag)] for z in np.asarray(v, dtype=complex)]
+
+
+def _real_loss(pairs, l, s, c=0, u=False):
+    """total_fidelity_loss of the plan the REAL adaptive_approximation returns (pre-pass: the budgets of the
+    ladder below are placed relative to losses the code itself computes, never relative to a re-implementation)."""
+    from qclib.state_preparation.util import baa
+    return float(baa.adaptive_approximation([complex(a, b) for a, b in pairs], l, s, c, u).total_fidelity_loss)
+
+
+def _almost_separable(n, cut, w, r):
+    """sqrt(1-w) a0 (x) b0 + sqrt(w) a1 (x) b1 with a on the qubits `cut`, b on the others (both pairs
+    orthonormal, haar): Schmidt weights (1-w, w) across the cut, generic across every other cut."""
+    rest = [q for q in range(n) if q not in cut]
+    a0, a1 = _orth2(r, len(cut))
+    b0, b1 = _orth2(r, len(rest))
+    return (math.sqrt(1 - w) * _interleave(n, [list(cut), rest], [a0, b0])
+            + math.sqrt(w) * _interleave(n, [list(cut), rest], [a1, b1]))
+
+
+# budgets relative to a loss T that a candidate of the search really has:  `loss <= max_fidelity_loss` (baa.py:250)
+LADDER = [("below-rel-1e-5", lambda t: t * (1 - 1e-5)), ("below-2e-5", lambda t: t - 2e-5), ("below-5e-5", lambda t: t - 5e-5),
+          ("at", lambda t: t), ("above-rel-1e-5", lambda t: t * (1 + 1e-5))]
+
+# exactly separable 9/10-qubit layouts whose search leaves a FINAL block of 2-4 qubits that contains qubit 8 or 9
+# together with a lower qubit (baa.py:387-389: the remaining register must come out ascending; CPython iterates
+# small-int sets in ascending order only while every member is < 8)
+STRADDLE_LAYOUTS = [
+    # pre-screened with the recording wrapper on the real _create_node (Recorder.order_sensitive): with the strategy named, the
+    # returned plan contains a block that was the REMAINING side of a split of a 3-4 qubit register and whose bare set order
+    # is not ascending.  split / brute_force, max_combination_size 0:
+    (9, [[0, 2, 4, 6], [1, 3], [5, 8], [7]]),
+    (10, [[0, 2, 4, 6], [1], [3, 5], [7, 9], [8]]),
+    (10, [[6], [0, 1, 2, 3], [4, 9], [7], [5, 8]]),
+    (9, [[2, 4], [1], [0, 3, 6, 7], [5, 8]]),
+    (9, [[3, 4, 5, 7], [0, 1], [2], [6, 8]]),
+    (10, [[3, 4], [8], [0, 1, 2, 6, 7], [5, 9]]),
+    # split / brute_force, max_combination_size 2:
+    (9, [[2], [3], [1, 4], [5], [0], [6, 7, 8]]),
+    (9, [[2, 4, 5], [0, 1, 3, 6], [7, 8]]),
+    (9, [[0, 3, 6], [1, 2, 4, 5], [7, 8]]),
+    # canonical (prefix splits), max_combination_size 0 resp. 2:
+    (9, [[0, 1, 2, 3], [4, 5], [6], [7, 8]]),
+    (9, [[0, 1], [2, 3], [4, 5], [6], [7, 8]]),
+    # (greedy: 480 random exactly separable layouts x 4 sizes and 48 random states x 3 lossy budgets never left such a block:
+    #  its pick rule - most CNOTs saved, baa.py:311 - prefers an approximate single-qubit removal to the exact sibling; greedy
+    #  runs on all layouts below all the same)
+]
+
+
+def gen_boundary_cases(ctx):
+    pr = ctx.rng
+    r = ctx.nprng()
+    cases = []
+
+    def add(n, kind, pairs, l, s, u, c, tag, counts, **extra):
+        cases.append(dict({"n": n, "kind": kind, "vec": pairs, "l": float(l), "s": s, "u": bool(u), "c": int(c), "tag": tag,
+                           "do_cx": False, "bcount": list(counts)}, **extra))
+
+    def ladder(n, kind, pairs, s, u, c, t, tag, what):
+        for name, f in LADDER:
+            l = f(t)
+            if 0.0 < l <= 1.0:
+                add(n, kind, pairs, l, s, u, c, f"{tag}-{name}", [f"boundary:{what}:{name}"])
+
+    # --- (1) budget a hair below / at / above the loss of the candidate that wins at that budget -------------
+    vecs = [(2, "haar"), (2, "real"), (3, "haar"), (3, "real"), (3, "nearprod"), (3, "w"), (4, "haar"), (4, "nearprod"),
+            (4, "lowrank"), (5, "nearprod")]
+    if not ctx.quick:
+        vecs += [(3, "haar"), (4, "real"), (5, "haar"), (5, "lowrank"), (6, "nearprod")]
+    for vi, (n, kind) in enumerate(vecs):
+        pairs = _pairs(make_vector(kind, n, pr, r))
+        p_loss = _real_loss(pairs, 1.0, "canonical")
+        for s in STRATS:
+            u = pr.random() < 0.5
+            c = pr.choice([0, 0, 1, n // 2])
+            seen = []
+            for frac in (0.3, 0.6, 0.95):
+                t = _real_loss(pairs, frac * p_loss, s, c, u)
+                if t > 1e-6 and all(abs(t - x) > 1e-3 for x in seen) and len(seen) < 2:
+                    seen.append(t)
+                    ladder(n, kind, pairs, s, u, c, t, f"bnd{vi}-T{len(seen)}", "budget-vs-candidate-loss")
+        # early exit `max_fidelity_loss >= product_state_node.total_fidelity_loss` (baa.py:92)
+        if p_loss > 1e-6:
+            s = pr.choice(["greedy", "brute_force", "split"])
+            for name, l in (("below", p_loss * (1 - 1e-5)), ("at", p_loss), ("above", min(1.0, p_loss * (1 + 1e-5)))):
+                add(n, kind, pairs, l, s, pr.random() < 0.5, 0, f"bnd{vi}-P-{name}", [f"boundary:budget-vs-product-loss:{name}"])
+
+    # --- (2) almost separable across one cut, budget 0 and budgets around the tiny loss ----------------------
+    cuts = [(2, [0]), (2, [1]), (3, [0]), (3, [1]), (3, [2]), (4, [1]), (4, [0, 1]), (4, [0, 2]), (4, [1, 3]), (5, [2]), (5, [0, 3])]
+    for ci, (n, cut) in enumerate(cuts):
+        for w in ([1e-5, 3e-5, 9e-5] if n <= 3 else [pr.choice([1e-5, 3e-5, 9e-5])]):
+            pairs = _pairs(_almost_separable(n, cut, w, r))
+            kind = "almostsep"
+            tag = f"asep{ci}-w{w:g}"
+            for s in STRATS:
+                add(n, kind, pairs, 0.0, s, pr.random() < 0.5, pr.choice([0, 0, len(cut)]), tag + "-l0",
+                    ["boundary:budget0-vs-schmidt-weight-1e-5..1e-4"])
+            s = pr.choice(STRATS)
+            u = pr.random() < 0.5
+            t = _real_loss(pairs, 3 * w, s, 0, u)
+            if 0.0 < t <= 3 * w:
+                for name, l in (("third", t / 3), ("below-rel-1e-5", t * (1 - 1e-5)), ("at", t), ("triple", 3 * t)):
+                    add(n, kind, pairs, l, s, u, 0, f"{tag}-{name}", [f"boundary:tiny-budget-vs-tiny-loss:{name}"])
+
+    # --- (3) n = 9, 10: exactly separable, interleaved, a final block straddling qubit 8 ---------------------
+    layouts = list(STRADDLE_LAYOUTS)
+    for _ in range(2 if ctx.quick else 8):          # random layouts around a set-order-sensitive block
+        n = pr.choice([9, 10])
+        blocks = [b for b in ([5, 8], [7, 8], [6, 8], [3, 9], [7, 9], [6, 7, 8], [5, 7, 8], [6, 8, 9], [4, 7, 9], [5, 6, 7, 8])
+                  if max(b) < n]
+        blk = pr.choice(blocks)
+        others = [q for q in range(n) if q not in blk]
+        pr.shuffle(others)
+        groups, i = [], 0
+        while i < len(others):
+            k = pr.choice([1, 2, 2, 3, 4])
+            groups.append(sorted(others[i:i + k]))
+            i += k
+        layouts.append((n, groups + [blk]))
+    for li, (n, groups) in enumerate(layouts):
+        pairs = _pairs(_interleave(n, groups, [_haar(r, len(g)) for g in groups]))
+        combos = [("split", 0), ("split", 2), ("canonical", 0), ("canonical", 2), ("greedy", 0), ("greedy", 2), ("brute_force", 2)]
+        if n == 9:
+            combos.append(("brute_force", 0))
+        # l = 0 AND l = 1e-12: the SVD loss of an exactly separable cut comes out as +-4e-16, so at l = 0 the split is taken
+        # only when the rounding happens to be <= 0; at 1e-12 it is always taken (no other cut of these states is below 1e-3)
+        for s, c in combos:
+            for l in (0.0, 1e-12):
+                add(n, "straddle8", pairs, l, s, False, c, f"lay{li}", [f"boundary:register-straddles-qubit-8:n={n}"], straddle=True)
+        add(n, "straddle8", pairs, 1e-12, pr.choice(["split", "greedy"]), True, 0, f"lay{li}-u",
+            [f"boundary:register-straddles-qubit-8:n={n}"], straddle=True)
+
+    # --- (4) max_combination_size below / at / above len(register)//2  (baa.py:216) ---------------------------
+    for n in range(2, 7):
+        for c in sorted({max(0, n // 2 - 1), n // 2, n // 2 + 1}):
+            kind = pr.choice(["haar", "nearprod", "groups", "lowrank"])
+            pairs = _pairs(make_vector(kind, n, pr, r))
+            for s in STRATS:
+                rel = "below" if c < n // 2 else ("at" if c == n // 2 else "above")
+                add(n, kind, pairs, pr.choice([0.0, 0.1, 0.3]), s, pr.random() < 0.5, c, f"maxk-{rel}", [f"boundary:max_k-vs-half:{rel}"])
+
+    # --- (5) max_fidelity_loss at and just outside [0, 1]  (baa_lowrank.py:57) --------------------------------
+    for n, kind in [(3, "haar"), (4, "nearprod")]:
+        pairs = _pairs(make_vector(kind, n, pr, r))
+        for name, l in (("-1e-9", -1e-9), ("0", 0.0), ("+1e-9", 1e-9), ("1-1e-9", 1 - 1e-9), ("1", 1.0), ("1+1e-9", 1 + 1e-9)):
+            add(n, kind, pairs, l, pr.choice(STRATS), pr.random() < 0.5, 0, "lrange" + name, ["boundary:max_fidelity_loss-range:" + name])
+
+    # --- (6) a Schmidt coefficient a factor 3 below / above the 1e-7 rank cut (entanglement.py:_effective_rank) --
+    for n, cut in [(3, [1]), (4, [0, 2]), (4, [3])]:
+        for name, coef in (("3.3e-8", 3.3e-8), ("3e-7", 3e-7)):
+            pairs = _pairs(_almost_separable(n, cut, coef ** 2, r))
+            # amplitudes compared to 3e-6 here (everywhere else 1e-7): a coefficient s in (1e-7, 3e-5) puts a two-qubit block of
+            # the exact low-rank preparation within fidelity 1e-9 of a special Weyl class, which qiskit's two-qubit synthesis
+            # then rounds (error ~s; known findings K-C07-1 / K-C01-1, not the subject of C08).  What is evaluated at the rank
+            # cut is the plan: search tree (tie), cover, budget, loss accounting.
+            for u in (False, True):
+                for l in (0.0, 1e-3):
+                    add(n, "svcut", pairs, l, pr.choice(STRATS), u, 0, "sv" + name, ["boundary:schmidt-coefficient-vs-1e-7:" + name],
+                        tol=3e-6)
+
+    # --- (7) randomized-SVD switch `rank == 1 and n_qubits >= 14 and len(partition) > round(n/2.5)` -------------
+    #     n = 13 / 14 / 15, partition size at / below the bound, rank 1 / 0; cheap product-like states
+    for n, c, u, name in [(13, 0, False, "n=13"), (14, 0, False, "n=14"), (15, 0, False, "n=15"), (14, 6, False, "n=14:len=6"),
+                          (15, 6, False, "n=15:len=6"), (14, 0, True, "n=14:rank=0")]:
+        kind = pr.choice(["product", "ghzmix"])
+        pairs = _pairs(make_vector(kind, n, pr, r))
+        add(n, kind, pairs, pr.choice([0.0, 0.05, 1.0]), "canonical", u, c, "rsvd-" + name, ["boundary:randomized-svd-switch:" + name],
+            rsvd_seed=pr.randrange(2 ** 31))
+    return cases
+
+
+# ---------------------------------------------------------------------------------------------
 # pure helpers of baa.py, tied exhaustively
 # ---------------------------------------------------------------------------------------------
 
@@ -737,7 +948,7 @@ def _execute(ctx, cases, workers=None):
             op = res["op"]
             label = op.pop("label")
             ctx.tie(op, res["impl"], label=label)
-        for nm in res["counts"]:
+        for nm in res["counts"] + c.get("bcount", []):
             ctx.count(nm)
         ctx.count(f"n={c['n']}")
         ctx.count(f"strategy:{c['s']}")
@@ -756,6 +967,13 @@ def run(ctx):
     import qclib.state_preparation  # noqa: F401
     ctx.notes.append("vectors keep Schmidt coefficients outside (1e-12, 1e-3): the band around the 1e-7 rank threshold and "
                      "the band where a zero-loss decision would depend on rounding are excluded")
+    ctx.notes.append("boundary cases (gen_boundary_cases): budgets a hair below / at / above the loss of the candidate that wins at that "
+                     "budget and of the fully separated plan (losses taken from a pre-pass of the real code), almost separable states "
+                     "(non-leading Schmidt weight 1e-5..1e-4, coefficient >= 3e-3) at budget 0 and around the tiny loss, exactly "
+                     "separable 9/10-qubit layouts whose plan keeps a remaining block straddling qubit 8 (l = 0 and 1e-12), "
+                     "max_combination_size below/at/above half, max_fidelity_loss at and just outside [0,1], n = 13/14/15 around the "
+                     "randomized-SVD switch, and 24 'svcut' cases with one Schmidt coefficient at 3.3e-8 / 3e-7 (amplitudes to 3e-6 there: "
+                     "qiskit's two-qubit synthesis rounds blocks within fidelity 1e-9 of a special class, K-C07-1 / K-C01-1)")
     if ctx.quick:
         tie_helpers(ctx, 6)
         tie_local_partition(ctx, 6)
@@ -763,6 +981,7 @@ def run(ctx):
         cases = gen_cases(ctx, 5, 24, 6)
         cases += gen_cases(ctx, 6, 8, 6, nmin=6)
         cases += gen_entry_cases(ctx)
+        cases += gen_boundary_cases(ctx)
     else:
         tie_helpers(ctx, 8)
         tie_local_partition(ctx, 8)
@@ -770,6 +989,7 @@ def run(ctx):
         cases = gen_cases(ctx, 6, None, 5, reps=2)
         cases += gen_cases(ctx, 7, 8, 10 ** 9, nmin=7)
         cases += gen_entry_cases(ctx)
+        cases += gen_boundary_cases(ctx)
     _execute(ctx, cases)
 
 
@@ -787,6 +1007,6 @@ def replay(ctx, payload):
     opt = r["opt"]
     c = {"n": r["n"], "kind": r.get("kind", "replay"), "vec": r["vector"], "l": opt["max_fidelity_loss"],
          "s": opt["strategy"], "u": opt["use_low_rank"], "c": opt["max_combination_size"], "tag": r.get("tag", "replay"),
-         "do_cx": bool(r.get("do_cx", False)) or "cx_baa" in r}
-    c.update({k: r[k] for k in ("form", "iso", "uni", "qubits", "rsvd_seed", "ref_form") if k in r})
+         "do_cx": bool(r.get("do_cx", False)) or "cx_baa" in r, "straddle": bool(r.get("straddle", False))}
+    c.update({k: r[k] for k in ("form", "iso", "uni", "qubits", "rsvd_seed", "ref_form", "tol") if k in r})
     _execute(ctx, [c])
